@@ -69,8 +69,6 @@ def parse(text):
         if len(tok) - 1 != len(fields):
             tr.problems.append(("field-count-mismatch:" + name, "line %d: %s has %d fields, its definition %d: %r"
                                 % (ln, name, len(tok) - 1, len(fields), raw)))
-            if len(tok) - 1 < len(fields):
-                continue
         names = [f for f, _ in fields]
         # the field names of the "basic" flavour of the format (--cfg=tracing/basic:yes)
         alt = {"ContainerType": "Type", "EntityType": "Type", "SourceContainerType": "StartContainerType", "DestContainerType": "EndContainerType",
@@ -94,9 +92,16 @@ class _Validator:
         self.deferred = []                        # (sig, msg, container name): the signature depends on what happens later
         self.last = None                          # (time, line, kind) of the running maximum
         self.stats = {"events": 0, "containers": 0, "destroyed": 0, "push": 0, "pop": 0, "links": 0, "variables": 0, "kinds": set(),
-                      "max_depth": 0, "created_after_start": 0, "new_events": 0}
+                      "max_depth": 0, "created_after_start": 0, "new_events": 0, "remarks": {}}
+
+    REMARKS = ("type-container-mismatch", "container-type-mismatch", "value-of-another-type", "container-destroyed-before-its-children",
+               "container-alias-reused")
 
     def add(self, sig, msg, container=None):
+        if sig.startswith(self.REMARKS):
+            # consistency beyond what the statement of C47 demands: counted (stats["remarks"]), not a violation
+            self.stats["remarks"][sig] = self.stats["remarks"].get(sig, 0) + 1
+            return
         if len(self.bad) < self.max:
             self.bad.append((sig, msg, container))
 
@@ -127,6 +132,9 @@ class _Validator:
                 lt, ll, lk = self.last
                 if lk == "PajeCreateContainer" or name == "PajeCreateContainer":
                     add("timestamps-decrease:around-PajeCreateContainer", "line %d: %s at %r follows line %d (%s) at %r" % (ln, name, t, ll, lk, lt))
+                elif name in ("PajeSetVariable", "PajeAddVariable", "PajeSubVariable"):
+                    # resource utilisation is traced retroactively (from the action's last update to now)
+                    add("timestamps-decrease:retroactive-variable-event", "line %d: %s at %r follows line %d (%s) at %r" % (ln, name, t, ll, lk, lt))
                 else:
                     add("timestamps-decrease:%s-after-%s" % (name, lk), "line %d: %s at %r follows line %d (%s) at %r" % (ln, name, t, ll, lk, lt))
             else:
